@@ -13,6 +13,7 @@ For Disjoint operands the regrouping (`ShapeFromJordans`) is certified per run b
 -/
 import ShapeVerif.Props.C06
 import ShapeVerif.Props.C03b
+import ShapeVerif.Proofs.Slab
 
 namespace ShapeVerif.C06
 open ShapeVerif ShapeVerif.C03
@@ -63,6 +64,52 @@ theorem invert_connected_region (js : List Jordan) (r : Pt) (h : ∀ j ∈ js, J
     (Shape.invertBy Gen.invertRule (.connected js)).map (fun S => S.memW r) = some (!(Shape.connected js).memW r) := by
   have := invert_connected_is_complement (fun j => ShapeVerif.memW j r) js (fun j hj => memW_invert_of_jordanAt j r (h j hj))
   simpa [memW_eq_memAt] using this
+
+/-! ### boundary curves that touch themselves: what `curveOK` accepts -/
+
+/-- an accepted boundary curve is a simple closed polygon, or a weakly simple one -/
+theorem curve_ok_cases (j : Jordan) (h : curveOK j = true) : simpleJ j = true ∨ weaklySimpleJ j = true := by
+  unfold curveOK at h
+  simpa [Bool.or_eq_true] using h
+
+/-- what "weakly simple" means: straight pieces, at least three, chained cyclically, none of zero length, no two distinct edges overlap along
+a piece, and — at EVERY point off the edges outside finitely many vertical lines — the crossing number is 0 or the orientation sign:
+the winding range of a simple closed curve.  A curve that crosses itself has a lobe of the opposite sign or a doubly covered region and is
+rejected; a curve that only touches itself at isolated points (the boundary of `A ^ B` where the boundaries of A and B cross) is accepted. -/
+theorem weakly_simple_facts (j : Jordan) (h : weaklySimpleJ j = true) :
+    j.isPolygon = true ∧ 3 ≤ j.edges.length ∧
+    (∀ ef ∈ j.edges.zip (j.edges.tail ++ j.edges.take 1), ef.1.q = ef.2.p ∧ ef.1.p ≠ ef.1.q) ∧
+    (∀ (i k : Nat) (e f : Edge), (e, i) ∈ j.edges.zipIdx → (f, k) ∈ j.edges.zipIdx → i < k → edgesOverlap e f = false) ∧
+    (∀ r : Pt, r.x ∉ criticalXs j.edges → OffLines j.edges r →
+        wind j.edges r = 0 ∨ wind j.edges r = (if j.ccw then 1 else -1)) := by
+  simp only [weaklySimpleJ, Bool.and_eq_true, decide_eq_true_eq] at h
+  obtain ⟨⟨⟨⟨h1, h2⟩, h3⟩, h4⟩, h5⟩ := h
+  refine ⟨h1, h2, ?_, ?_, ?_⟩
+  · intro ef hef
+    have := List.all_eq_true.mp h3 ef hef
+    simpa [Bool.and_eq_true] using this
+  · intro i k e f he hf hik
+    have := List.all_eq_true.mp (List.all_eq_true.mp h4 (e, i) he) (f, k) hf
+    have hki : ¬ k ≤ i := by omega
+    simpa [hki] using this
+  · intro r hx hoff
+    unfold windRangeOK at h5
+    have := slabCheck_sound j.edges _ (fun r r' hrr => by
+      simp only [wind_congr j.edges r r' hrr]) h5 r hx hoff
+    simpa [Bool.or_eq_true] using this
+
+/-- in particular a weakly simple result curve satisfies, at every generic point, the hypothesis under which C02 / C03b identify its
+winding-number region with "inside" — checked and proved per result, not assumed -/
+theorem weakly_simple_wind_range (j : Jordan) (h : weaklySimpleJ j = true) (r : Pt)
+    (hx : r.x ∉ criticalXs j.edges) (hoff : OffLines j.edges r) :
+    wind j.edges r = 0 ∨ wind j.edges r = (if j.ccw then 1 else -1) := (weakly_simple_facts j h).2.2.2.2 r hx hoff
+
+/-! a bow-tie that CROSSES itself is rejected, two triangles joined at a vertex (touching) are accepted -/
+example : curveOK (Jordan.fromVertices [⟨0,0⟩, ⟨2,2⟩, ⟨2,0⟩, ⟨0,2⟩]) = false := by decide +kernel
+example : simpleJ (Jordan.fromVertices [⟨0,0⟩, ⟨2,0⟩, ⟨1,1⟩, ⟨2,2⟩, ⟨0,2⟩, ⟨1,1⟩]) = false ∧
+    curveOK (Jordan.fromVertices [⟨0,0⟩, ⟨2,0⟩, ⟨1,1⟩, ⟨2,2⟩, ⟨0,2⟩, ⟨1,1⟩]) = true := by decide +kernel
+-- a curve that retraces an edge (a spike) is rejected
+example : curveOK (Jordan.fromVertices [⟨0,0⟩, ⟨2,0⟩, ⟨2,2⟩, ⟨3,2⟩, ⟨2,2⟩, ⟨0,2⟩]) = false := by decide +kernel
 
 /-! non-vacuity: the ring (0,0)-(4,4) minus (1,1)-(2,2); its complement as built contains the hole's centre and a far point, not a ring point -/
 example : (Shape.invertBy Gen.invertRule ring).map (fun S => (S.memW ⟨3/2, 3/2⟩, S.memW ⟨9, 9⟩, S.memW ⟨3, 3⟩)) = some (true, true, false) := by
